@@ -29,13 +29,16 @@ _BT = ("Ensures/raises clauses taken from the property statement are attached to
        "and counterexamples are replayed on the real code. Array extents / bin counts are fixed small numbers per configuration, so these obligations are a "
        "bounded stand-in and are reported under coverage.bounded, never as proved. ")
 for _p, _extra in {
-    "C02": "h facade over 2-3 axes, <=2 rows.", "C03": "find_bin/fill/fill_n of Histogram1D and HistogramND.",
+    "C02": "h facade over 2-3 axes, <=2 rows (also right-open axes with warm edge caches; rows with infinite coordinates by a stand-in decided on the real code). Additionally unbounded "
+           "(counted under obligations/discharged): the constructor every ND construction ends in, Histogram2D.__init__, for cell arrays of ANY shape (stores exactly the given contents, "
+           "errors default to the contents, missed weight kept, wrong shapes / negative values refused).", "C03": "find_bin/fill/fill_n of Histogram1D and HistogramND.",
     "C05": "__iadd__/__add__ same-bins and refusal arms; Statistics.__add__ is proved unbounded.",
     "C06": "scaling/division arms and refusals; Statistics.__mul__ is proved unbounded.",
     "C09": "projection over every enumerated axis tuple of 2D-4D shapes, T, accumulate. Additionally unbounded (counted under obligations/discharged): the projection of a 2-D "
            "histogram of ANY shape onto one axis (by index or name) -- marginal contents and errors as recursive row / column sums, bins and name of the kept axis, parent untouched; Histogram2D.T for any shape (bins, names, contents swapped, T.T is the original).", "C10": "merge_bins(amount) 1D/2D.",
     "C11": "1D int/slice/mask/index-array and ND tuple indexing.", "C12": "independence (no shared writable storage) of copy, +, *, /, merge, slices, projections, T.",
-    "C13": "dtype consistency/promotion clauses of fill, fill_n, +, *, /.", "C18": "state-unchanged clauses on every refusing path of the mutators.",
+    "C13": "dtype consistency/promotion clauses of fill, fill_n, +, *, /.", "C18": "state-unchanged clauses on every refusing path of the mutators. Additionally unbounded (counted under obligations/discharged, any bin count / shape): "
+           "a negative factor in *=, a merge across a gap (merge_bins), wrong shapes / negative values in the 1-D and 2-D constructors -- refused with every content unchanged.",
 }.items():
     CHECKS[_p] = {"category": "other", "technique": _B, "text": _BT + _extra, "note": _NOTE + "Bounded extents (see evidence coverage.bounded.bounds)."}
 for _p, _extra in {
